@@ -13,5 +13,5 @@ assert t!=s, "mutation did not change the file"
 open(sys.argv[2],'w').write(t)
 PY
 [ $? -eq 0 ] || { rm -rf $tmp; exit 1; }
-(cd $tmp && diff -u a/$file b/$file > $out.tmp); mv $tmp/$out.tmp $out 2>/dev/null || (cd $tmp && diff -u a/$file b/$file) > $out
+(cd $tmp && diff -u a/$file b/$file) > $out
 rm -rf $tmp; wc -l $out
